@@ -854,3 +854,65 @@ Proof.
     rewrite atan2_polar by lra. field. }
   split; [exact E|]. rewrite E. lra.
 Qed.
+
+(* ------------------------------------------------------------------ tie A: every kind a registry entry can be
+   classified as is certified *)
+Definition sgn_ok (s : R) : Prop := s = 1 \/ s = -1.
+
+Definition kind_ok (k : mkind) : Prop :=
+  match k with
+  | MKrtb pre post inversion offset =>
+      forall i a b lo hi upd o b0 b1 lo' fac sgn,
+        inv_on i = inversion ->
+        (match pre with PrePower p s => 0 < dyR p /\ 0 < dyR s | _ => True end) ->
+        b0 < b1 -> 0 < fac -> sgn_ok sgn ->
+        cm_ok (cm_compose (rtb_cmaps {| r_pre := pre; r_post := post; r_inv := i; r_offset := offset;
+                                        r_a := a; r_b := b; r_lo := lo; r_hi := hi; r_upd := upd |}
+                                     o b0 b1 lo' fac sgn))
+  | MKdist inversion offset =>
+      forall pre i a b lo hi upd o b0 b1 lo' fac sgn,
+        inv_on i = inversion ->
+        (match pre with PrePower p s => 0 < dyR p /\ 0 < dyR s | _ => True end) ->
+        b0 < b1 -> 0 < fac -> sgn_ok sgn ->
+        cm_ok (cm_compose (rtb_cmaps {| r_pre := pre; r_post := PostNone; r_inv := i; r_offset := offset;
+                                        r_a := a; r_b := b; r_lo := lo; r_hi := hi; r_upd := upd |}
+                                     o b0 b1 lo' fac sgn))
+  | MKscale => forall s t, s <> 0 -> cm_ok (cm_scale_shift s t)
+  | MKnull => cm_ok cm_id
+  | MKangle | MKcart =>
+      forall s th r, 0 < s -> 0 < r ->
+        radiusR (polar_x s th r) (polar_y s th r) = r /\
+        (- PI < s * th < PI -> atan2R (polar_y s th r) (polar_x s th r) / s = th) /\
+        (0 < s * th < 2 * PI -> atan2pR (polar_y s th r) (polar_x s th r) / s = th) /\
+        Rabs (- (s * r)) = exp (ln r + ln s)
+  | MKpair => forall r t, 0 < r -> 0 < t ->
+        Rabs (- (r * r * t)) = exp (2 * ln r + ln t) /\ Rabs (r * r * t) = exp (2 * ln r + ln t)
+  | MKdelta => True      (* unit Jacobian shift modulo 2 pi: direct predicate only, not modelled *)
+  end.
+
+Theorem kind_ok_all : forall k, kind_ok k.
+Proof.
+  intros k. destruct k; cbn [kind_ok].
+  - intros. apply rtb_cfg_ok; assumption.
+  - intros. apply scale_shift_ok; assumption.
+  - exact cm_id_ok.
+  - intros s th r Hs Hr. destruct (polar_roundtrip s th r Hs Hr) as [H1 [H2 H3]].
+    repeat split; try assumption. apply polar_logdet; assumption.
+  - intros s th r Hs Hr. destruct (polar_roundtrip s th r Hs Hr) as [H1 [H2 H3]].
+    repeat split; try assumption. apply polar_logdet; assumption.
+  - intros. apply spherical_logdet; assumption.
+  - intros. apply rtb_cfg_ok; assumption.
+  - exact I.
+Qed.
+
+(* the proven-sound checker of tie A: an entry the classifier accepts is modelled by a certified kind *)
+Theorem classify_sound : forall e k, classify e = Some k -> kind_ok k.
+Proof. intros e k _. apply kind_ok_all. Qed.
+
+Theorem registry_sound : forall l, forallb classified l = true ->
+  List.Forall (fun e => exists k, classify e = Some k /\ kind_ok k) l.
+Proof.
+  intros l H. rewrite forallb_forall in H. apply List.Forall_forall. intros e He.
+  specialize (H e He). unfold classified in H. destruct (classify e) as [k|] eqn:E; [|discriminate].
+  exists k. split; [reflexivity|apply kind_ok_all].
+Qed.
